@@ -379,6 +379,8 @@ impl<T: BitRead> PackedRead for T {
     ) -> Result<u64, Error> {
         if extensible && self.read_bit()? {
             Ok(self.read_normally_small_length()? + std_variants)
+        } else if std_variants == 0 {
+            Err(ErrorKind::InvalidChoiceIndex(0, std_variants).into())
         } else {
             self.read_non_negative_binary_integer(None, Some(std_variants - 1))
         }
